@@ -1135,6 +1135,10 @@ func genGoMiniAll() []*leanFile {
 		[]string{cl + "commitlog.go"},
 		map[string][]string{cl + "commitlog.go": {"commitLog.NewLeaderEpoch", "commitLog.LastOffsetForLeaderEpoch", "commitLog.NewestOffset"}},
 		clConsts)})
+	out = append(out, &leanFile{name: "GoAppendTop", raw: genGoMini("GoAppendTop",
+		[]string{cl + "commitlog.go"},
+		map[string][]string{cl + "commitlog.go": {"commitLog.Append", "commitLog.AppendMessageSet"}},
+		clConsts)})
 	out = append(out, &leanFile{name: "GoHWPos", raw: genGoMini("GoHWPos",
 		[]string{cl + "reader.go"},
 		map[string][]string{cl + "reader.go": {"getHWPos"}},
